@@ -25,6 +25,7 @@ THEOREMS = [
     'AiutiVerif.FileLock.Small.C12_unowned_is_pristine',
     'AiutiVerif.FileLock.Small.C12_reacquirable_under_contention',
     'AiutiVerif.FileLock.Small.C12_calls_never_stuck',
+    'AiutiVerif.FileLock.Small.C12_nobody_enters_during_a_call',
 ]
 ASSUMPTIONS = [
     'kernel flock contract (per open file description, exclusive, dropped on close) - the real kernel is used '
